@@ -33,6 +33,64 @@ class C13(Prop):
     def impl(self, case):
         return G.build_impl(case)
 
+    def extra(self, ctx):
+        """"never hangs": unusual model file names (leading dots, stacked extensions, directories, no extension),
+        each build in its own child interpreter under a 20 s watchdog; the outcome is compared with the model"""
+        import json
+        import os
+        import subprocess
+        import sys
+        from concurrent.futures import ThreadPoolExecutor
+        from harness.common import VERIF, run_driver, case_hash
+        rng = ctx['rng']
+        names = ['.Toaster.dzn', 'models/.Toaster.dzn', '.dzn', '..', 'Toaster.dzn.json', 'a.b.c.dzn', 'dir.d/Toaster',
+                 'Toaster.', '/abs/.hidden/x.dzn', './x.dzn', 'x', '...dzn', 'dir/', '.a.b']
+        base = None
+        for _ in range(50):
+            c = G.gen_case(rng, want_mc=False)
+            if c['_info']['ports']:
+                base = self._strip(c)
+                break
+        if base is None:
+            return None
+        cases = []
+        for nm in names:
+            c = json.loads(json.dumps(base))
+            c['cfg']['filename'] = nm
+            c['expect'] = 'any'
+            cases.append(c)
+
+        def child(c):
+            env = dict(os.environ, PYTHONHASHSEED='0', VERIF_CHILD_SHUFFLE='0', VERIF_CHILD_CWD='0')
+            try:
+                p = subprocess.run([sys.executable, os.path.join(VERIF, 'harness', 'child_build.py')],
+                                   input=json.dumps([c]).encode(), stdout=subprocess.PIPE, stderr=subprocess.PIPE,
+                                   env=env, timeout=20)
+            except subprocess.TimeoutExpired:
+                return {'hang': True}
+            if p.returncode != 0:
+                return {'crash': p.stderr.decode()[-300:]}
+            return json.loads(p.stdout)[0]
+        with ThreadPoolExecutor(max_workers=8) as ex:
+            outs = list(ex.map(child, cases))
+        models = run_driver(cases)
+        failures, disagreements, shapes = [], [], []
+        for c, o, m in zip(cases, outs, models):
+            shapes.append(case_hash(['filename', c['cfg']['filename']]))
+            rec = {'case': c, 'impl': o, 'model': m.get('model'), 'failed': [], 'noshrink': True}
+            if o.get('hang'):
+                rec['failed'] = ['the build did not return within 20 s (file name %r)' % c['cfg']['filename']]
+                failures.append(rec)
+                continue
+            mm = m.get('model') or {}
+            if 'files' in o and 'ok' in mm:
+                if [f[0] for f in o['files']] != [f['name'] for f in mm['ok']['files']]:
+                    disagreements.append(rec)
+            elif not ('err' in o and 'err' in mm and o['err'] == mm['err']):
+                disagreements.append(rec)
+        return {'failures': failures, 'disagreements': disagreements, 'evaluations': len(cases), 'shapes': shapes,
+                'coverage': {'watchdog_builds': len(cases)}}
+
     def project(self, case, out):
         # C13 speaks about the outcome class and the file-name list
         if isinstance(out, dict) and 'ok' in out:
